@@ -114,7 +114,12 @@ def create_stub_files(
     created_module_paths: set[str] = set()
     classes_outside_package = list(stubs_generator.classes_outside_package)
     classes_outside_package.sort()
+    package_module_ids = set(stubs_generator.api.modules)
     for class_ in classes_outside_package:
+        # A name that belongs to a module of the analysed package (a NewType, a class defined under an "if", ...) is no
+        # class of another library. The path of its placeholder stub would be the path of the stub of that module
+        if "/".join(class_.split(".")[:-1]) in package_module_ids:
+            continue
         created_module_paths = _create_outside_package_class(class_, out_path, naming_convention, created_module_paths)
 
 
